@@ -5,6 +5,8 @@
  * argv:  match <hex rule text | -> [ARG ...]     parse the rule with the real parser, build a broadcast signal
  *                                                whose body has the given arguments, run match_rule_matches
  *        parse <hex rule text | ->               real bus_match_rule_parse vs reference grammar (accept / error name)
+ *        value <hex value text | ->              = parse on the rule text  arg0=<value text>   (quoting rules)
+ *        key   <hex text | ->                    = parse on the text itself (start of a rule: key scanning)
  *   ARG: s<hex>  STRING argument        o<hex>  OBJECT_PATH argument       u  a UINT32 argument (not matchable)
  *        (plain <hex> = s<hex>; "s-" / "o-" = empty string)
  *   options for match, given as further ARGs:  P<hex> message path (default /a)   I<hex> interface (default a.b)
@@ -45,6 +47,8 @@ int main (int argc, char **argv)
   int n, i, want; char *text; DBusString s; DBusError e; BusMatchRule *rule;
   if (argc < 3) { fprintf (stderr, "usage: see header comment\n"); return 2; }
   text = unhex (argv[2], &n);
+  if (!strcmp (argv[1], "value")) { char *t2 = malloc (n + 6); memcpy (t2, "arg0=", 5); memcpy (t2 + 5, text, n + 1); text = t2; n += 5; argv[1] = "parse"; }
+  else if (!strcmp (argv[1], "key")) argv[1] = "parse";
   show ("rule text", text, n);
   dbus_error_init (&e);
   _dbus_string_init_const_len (&s, text, n);
